@@ -32,6 +32,10 @@ def check(ctx):
     interrupted_flag(ctx, P, views, iters)
     event_tables(ctx, P, views)
     schedule_objects(ctx, P)
+    # a server handed on by a departing customer may have gone home with its shift: it is used again only if still in self.servers (shared instance, C04;
+    # the pre-emption site is C04/C11's finding K-02 and is not repeated here)
+    from . import c04
+    c04.attach_detach(ctx, P, views, iters, skip=("preempt",))
     timetable(ctx, P)
     ctx.assume("timetable arithmetic of get_schedule_generator (cycle length, offset) is not decided")
 
